@@ -272,6 +272,52 @@ fn scoped_reference_case(ctx: &Ctx, bytes: &[u8]) -> Outcome {
     check_session(ctx, "C01", &forms, &feats, &|_, _| true)
 }
 
+/// Redefinition of a global that holds a builtin procedure: code compiled before the
+/// redefinition (a wrapper procedure, a stored lambda, the builtin passed as a value) must see the
+/// new definition afterwards, whether it was made by define or by set!.
+fn redefine_builtin_program(c: &mut mwv_core::choice::Choices) -> Vec<Sx> {
+    // (name, a call with quoted/literal arguments only, replacement lambda)
+    let (name, call, repl) = *c.pick(
+        &[
+            ("abs", "(abs -5)", "(lambda (x) (if (< x 0) 'negative 'non-negative))"),
+            ("max", "(max 1 7 3)", "(lambda args 'my-max)"),
+            ("zero?", "(zero? 0)", "(lambda (x) 'asked-zero)"),
+            ("even?", "(even? 3)", "(lambda (x) x)"),
+            ("vector-ref", "(vector-ref '#(a b c) 1)", "(lambda (v i) i)"),
+            ("string-length", "(string-length \"four\")", "(lambda (s) s)"),
+            ("not", "(not #f)", "(lambda (x) 'negated)"),
+            ("car", "(car '(1 2 3))", "(lambda (p) 'my-car)"),
+            ("cdr", "(cdr '(1 2 3))", "(lambda (p) '(9 8 7))"),
+            ("symbol->string", "(symbol->string 'abc)", "(lambda (s) 'no-string)"),
+            ("number->string", "(number->string 42)", "(lambda (n) n)"),
+            ("remainder", "(remainder 17 5)", "(lambda (a b) (- a b))"),
+        ][..],
+    );
+    let how = *c.pick(&["(define {n} {r})", "(set! {n} {r})", "(begin (define {n} {r}))"][..]);
+    let redefinition = how.replace("{n}", name).replace("{r}", repl);
+    let holder = *c.pick(
+        &[
+            "(define (w) {call})",
+            "(define w (lambda () (if #t {call} 'never)))",
+            "(define w (let ((f {n})) (lambda () (cons (f-applied) {call}))))",
+            "(define (w) (let loop ((i 0) (acc '())) (if (< i 2) (loop (+ i 1) (cons {call} acc)) acc)))",
+        ][..],
+    );
+    // the third shape also keeps the old procedure object in a closure: that one must stay old
+    let args = &call[name.len() + 1..call.len() - 1];
+    let holder = holder.replace("(f-applied)", &format!("(f{})", args)).replace("{call}", call).replace("{n}", name);
+    let src = format!("{holder} (w) {call} {redefinition} (w) {call} (w)", holder = holder, call = call, redefinition = redefinition);
+    read_all(&src).expect("redefinition template parses")
+}
+
+fn redefine_builtin_case(ctx: &Ctx, bytes: &[u8]) -> Outcome {
+    let mut c = mwv_core::choice::Choices::new(bytes);
+    let forms = redefine_builtin_program(&mut c);
+    let mut feats = std::collections::BTreeSet::new();
+    feats.insert("builtin-global-redefined-after-code-using-it-was-compiled");
+    check_session(ctx, "C01", &forms, &feats, &|_, _| true)
+}
+
 fn promise_case(ctx: &Ctx, bytes: &[u8]) -> Outcome {
     let mut c = mwv_core::choice::Choices::new(bytes);
     let forms = promise_program(&mut c);
@@ -288,7 +334,7 @@ impl Prop for C01 {
         Some(("program", 20_000, 1536))
     }
     fn rule(&self) -> &'static str {
-        "sessions of 1-8 top-level forms from the typed program generator (definitions, type-preserving redefinitions, global set!, expressions over all core and derived forms, apply/eval/higher-order use), each run in the reference interpreter and in three VMs (fresh, second fresh, polluted with unrelated definitions); plus activation histories (a maker procedure with formals (), (a), (a . r) or r whose instances close over internal definitions / let / parameter state, created and operated on in a random interleaving, and a recursive procedure that reads its own internal definition after the recursive call returned), promises forced re-entrantly and repeatedly, and nests of procedures that read enclosing variables through quasiquote templates, let initialisers, thunks and cond clauses. Non-trivial: the reference run calls at least one user-defined procedure and the session uses >= 2 different special/derived forms; distinct by program text."
+        "sessions of 1-8 top-level forms from the typed program generator (definitions, type-preserving redefinitions, global set!, expressions over all core and derived forms, apply/eval/higher-order use), each run in the reference interpreter and in three VMs (fresh, second fresh, polluted with unrelated definitions); plus activation histories (a maker procedure with formals (), (a), (a . r) or r whose instances close over internal definitions / let / parameter state, created and operated on in a random interleaving, and a recursive procedure that reads its own internal definition after the recursive call returned), promises forced re-entrantly and repeatedly, globals that hold builtin procedures redefined (define / set!) after code using them was compiled, and nests of procedures that read enclosing variables through quasiquote templates, let initialisers, thunks and cond clauses. Non-trivial: the reference run calls at least one user-defined procedure and the session uses >= 2 different special/derived forms; distinct by program text."
     }
     fn assumptions(&self) -> Vec<&'static str> {
         vec![
@@ -305,6 +351,8 @@ impl Prop for C01 {
         ctx.run_bytes("activation", acts, 48, activation_case);
         let refs = ctx.tier.pick(40u32, 1_500u32);
         ctx.run_bytes("scoped-reference", refs, 48, scoped_reference_case);
+        let redefs = ctx.tier.pick(12u32, 200u32);
+        ctx.run_bytes("redefine-builtin", redefs, 8, redefine_builtin_case);
         let proms = ctx.tier.pick(20u32, 300u32);
         ctx.run_bytes("promise", proms, 12, promise_case);
     }
@@ -319,6 +367,7 @@ impl Prop for C01 {
             }
             "activation" => activation_case(ctx, &unhex(payload["bytes"].as_str().unwrap_or(""))),
             "scoped-reference" => scoped_reference_case(ctx, &unhex(payload["bytes"].as_str().unwrap_or(""))),
+            "redefine-builtin" => redefine_builtin_case(ctx, &unhex(payload["bytes"].as_str().unwrap_or(""))),
             "promise" => promise_case(ctx, &unhex(payload["bytes"].as_str().unwrap_or(""))),
             _ => case(ctx, &unhex(payload["bytes"].as_str().unwrap_or(""))),
         }
